@@ -5,7 +5,7 @@ ID = "C12"
 LEVEL = "model_checking"
 RULE = ("objgen families, each explored completely: M = every 3-tuple (and 2-section 2/3-tuples) of objects over the size x alignment "
         "alphabet, linked without layout, partially, and under layouts, each through the three link histories flat / (a+b)+c / a+(b+c); "
-        "R = every role matrix (absent/local/global/undefined) of 1-2 symbol names over 3 objects x {plain, partial, DEFINESYMBOL, ENTRY}; "
+        "R = every role matrix (absent/local/global/undefined) of 1-2 symbol names over 3 objects x {plain, partial, DEFINESYMBOL, ENTRY, extra_symbols (absolute definition), extra_symbols + DEFINESYMBOL}; "
         "L = every ordering of distinct layout items (SECTION x3, SECTIONDATA, ALIGN x2, DEFINESYMBOL) of bounded length cut into 1-2 "
         "memories x memory sizes at total-1/total/total+1 x layout as object / hex text / decimal text; a state is one (scenario, history); "
         "distinct non-trivial = distinct (family, history, error class or padding pattern + section addresses relative to the memory)")
@@ -56,7 +56,8 @@ def run_history(sc, hist, counter):
             objs = [objs[0], tail]
         stage = "final"
         counter[0] += 1
-        out = link(objs, layout=_layout_arg(sc.get("layout"), sc.get("form", "obj")), partial_link=bool(sc.get("partial")))
+        out = link(objs, layout=_layout_arg(sc.get("layout"), sc.get("form", "obj")), partial_link=bool(sc.get("partial")),
+                   extra_symbols=dict(sc["extra"]) if sc.get("extra") else None)
         return ("ok", out)
     except Exception as ex:  # noqa
         return ("err", ex, stage)
@@ -83,6 +84,8 @@ def expectations(sc):
                     defs[arg] = defs.get(arg, 0) + 1
         if ld.get("entry"):
             refs.add(ld["entry"])
+    for name in sc.get("extra") or {}:
+        defs[name] = defs.get(name, 0) + 1      # extra_symbols defines an absolute global
     dup = sorted(n for n, c in defs.items() if c > 1)
     undef = [] if sc.get("partial") else sorted(n for n in refs if n not in defs)
     overfull, fits = [], True
@@ -219,10 +222,17 @@ def check_output(p, sc, hist, out, w):
     n_local_defs = sum(1 for o in objs for y in o["symbols"] if y["binding"] == "local" and y["offset"] is not None)
     if len(exp_loc) == n_local_defs and sorted(exp_loc) != sorted(got_loc):
         p.violation("symbol/local-multiset" + tag, "local symbols (name, section, value, address): output %r, expected %r" % (sorted(got_loc), sorted(exp_loc)), w)
+    # absolute globals given through extra_symbols keep their value
+    for name, val in (sc.get("extra") or {}).items():
+        got = gsyms.get(name, [])
+        if len(got) != 1:
+            p.violation("symbol/global-count" + tag, "extra symbol %s: defined %d times in the output" % (name, len(got)), w)
+        elif out.get_symbol_id_value(got[0].id) != val:
+            p.violation("symbol/extra-value" + tag, "extra symbol %s = 0x%x in the output, 0x%x was given" % (name, out.get_symbol_id_value(got[0].id), val), w)
     # no invented global definitions
     leaf_globals = {y["name"] for o in objs for y in o["symbols"] if y["binding"] == "global" and y["offset"] is not None}
     for name in gsyms:
-        if name not in leaf_globals and name not in defined_by_layout:
+        if name not in leaf_globals and name not in defined_by_layout and name not in (sc.get("extra") or {}):
             p.violation("symbol/invented" + tag, "output defines global %s which no input defines" % name, w)
     # 4. layout: containment, image membership, no overlap, Image.data
     addrs = {}
@@ -472,7 +482,13 @@ def expand_r(item):
         ld = G.layout([G.mem("m0", 0x100, G.BIG, [["SECTION", "code"]])], entry=names[0])
     elif ctxname == "entry+defsym":
         ld = G.layout([G.mem("m0", 0x100, G.BIG, [["DEFINESYMBOL", names[-1]], ["SECTION", "code"]])], entry=names[0])
-    return {"fam": "R", "objs": objs, "layout": ld, "form": "obj", "partial": partial, "hists": list(HISTS)}
+    extra = None
+    if ctxname == "extra":
+        extra = {names[0]: 0x20000008}
+    elif ctxname == "extra+defsym":
+        extra = {names[0]: 0x20000008}
+        ld = G.layout([G.mem("m0", 0x100, G.BIG, [["SECTION", "code"], ["DEFINESYMBOL", names[0]]])])
+    return {"fam": "R", "objs": objs, "layout": ld, "form": "obj", "partial": partial, "hists": list(HISTS), "extra": extra}
 
 
 L_ITEMS = [["SECTION", "code"], ["SECTION", "data"], ["SECTION", "extra"], ["SECTIONDATA", "data"], ["ALIGN", 8], ["ALIGN", 2], ["DEFINESYMBOL", "s"]]
@@ -577,9 +593,9 @@ def items_for(tier, seed):
     n_r = 0
     for names, nobj in ((("x",), 3), (("x", "y"), 2), (("x", "y"), 3)):
         if tier == "quick" and names == ("x", "y") and nobj == 3:
-            ctxs = ["plain", "defsym"]
+            ctxs = ["plain", "defsym", "extra"]
         else:
-            ctxs = ["plain", "partial", "defsym", "entry", "entry+defsym"]
+            ctxs = ["plain", "partial", "defsym", "entry", "entry+defsym", "extra", "extra+defsym"]
         rank = {r: i for i, r in enumerate(G.ROLES)}
         assigns = sorted(itertools.product(G.ROLES, repeat=nobj * len(names)), key=lambda a: (sum(rank[r] != 0 for r in a), [rank[r] for r in a]))
         for a in assigns:
